@@ -3110,9 +3110,9 @@ class VM:
         frame = self.call_stack[-1]
         source_map = getattr(frame.func, "source_map", None)
         if source_map:
-            # Find the closest source location at or before current IP
-            # Walk backwards from current IP to find a mapped position
-            for ip in range(frame.ip, -1, -1):
+            # Find the closest source location at or before the instruction
+            # that is executing (frame.ip already points past it)
+            for ip in range(max(frame.ip - 1, 0), -1, -1):
                 if ip in source_map:
                     return source_map[ip]
         return None, None
